@@ -67,7 +67,7 @@ def _worker(arg: tuple) -> dict:
                     out['samples'].append(rec['sample'])
             elif st == 'cex':
                 out['cex'].append({'witness': rec['witness'], 'site': rec['site'],
-                                   'info': rec['info']})
+                                   'info': rec['info'], 'trail': rec.get('trail')})
             elif st == 'bound':
                 out['bound'] += 1
                 d = rec.get('detail', '')
@@ -269,6 +269,9 @@ def run_check(mod: Any, tier: str) -> int:
     check_id = mod.ID
     seed = int(os.environ.get('VERIF_SEED', '0') or 0)
     hs: list[Harness] = mod.harnesses(tier)
+    only = os.environ.get('VERIF_ONLY')
+    if only:     # debugging aid: run the harnesses whose name contains this text (the run is then never a pass)
+        hs = [h for h in hs if only in h.name]
     _HARNESSES = hs
     budget_s = float(os.environ.get('VERIF_BUDGET_S', '0') or 0) or \
         getattr(mod, 'TIME_BUDGET', {'quick': 600, 'thorough': 7200})[tier]
@@ -288,10 +291,13 @@ def run_check(mod: Any, tier: str) -> int:
                 continue
             seen.add(key)
             to_replay.append({'harness': h.replay, 'name': r['name'], 'witness': c['witness'],
-                              'expect': 'violates', 'site': c['site']})
+                              'expect': 'violates', 'site': c['site'], 'info': c.get('info')})
         for s in r['samples'][:h.max_samples]:
             to_replay.append({'harness': h.replay, 'name': r['name'], 'witness': s,
                               'expect': 'holds', 'site': 'sample'})
+    if os.environ.get('VERIF_DUMP_CEX'):
+        with open(os.environ['VERIF_DUMP_CEX'], 'w') as f:
+            json.dump([{'name': r['name'], 'cex': r['cex'][:50]} for r in results], f, default=str)
     replayed = replay_batch(check_id, to_replay) if to_replay else []
     violations, known_hits, harness_errors = [], {}, []
     validated = 0
@@ -312,8 +318,9 @@ def run_check(mod: Any, tier: str) -> int:
             continue
         if not res['violates']:
             harness_errors.append(
-                'counterexample does not reproduce on uninstrumented pymap: %s %s -> %s'
-                % (item['harness'], json.dumps(item['witness'])[:300], str(res.get('detail'))[:300]))
+                'counterexample does not reproduce on uninstrumented pymap: %s %s -> %s [engine: %s]'
+                % (item['harness'], json.dumps(item['witness'])[:300], str(res.get('detail'))[:300],
+                   str(item.get('info'))[:200]))
             continue
         validated += 1
         kf = None
